@@ -2,6 +2,7 @@
    here, so a theorem cannot be weakened in its own file without this file failing to compile. *)
 From BT Require Import Base.Util.
 From BT Require Model.FileView Model.Chunker Model.Indexer Properties.C18.
+From BT Require Model.BBIFile Model.BigWigWrite Model.Accept Proofs.SliceStreamsAccept.
 
 Module PinC18.
 Import Model.FileView Model.Chunker Model.Indexer Properties.C18.
@@ -53,4 +54,105 @@ Check (eq_refl : wf_line = fun l : line => fst l <> 0 /\ 1 <= snd l).
 Check (eq_refl : cut_ok = fun (file : list N) (p : N) =>
   p = 0 \/ exists pre post, file = pre ++ NL :: post /\ p = Nlen pre + 1).
 Check (eq_refl : depth_limit = 100%nat).
+(* ---- the consequence: lines through views ---- *)
+Check (C18_view_lines : forall (file : list N) (a b : N) (sz : nat -> N) (fuel : nat),
+  a <= b -> a <= Nlen file -> Nlen file < 2 ^ 63 -> (forall k, 1 <= sz k) ->
+  (length file < fuel)%nat ->
+  view_lines fuel file sz a b = Ok (split_lines (range file a b))).
+Check (C18_line_offsets_are_byte_offsets : forall (key : list N -> N) (bytes : list N) p l s,
+  split_lines bytes = p ++ l :: s ->
+  fsize (lfile key bytes) = Nlen bytes /\
+  entries 0 (lfile key bytes) =
+    entries 0 (map (abs_line key) p) ++ (Nlen (concat p), key l)
+      :: entries (Nlen (concat p) + Nlen l) (map (abs_line key) s) /\
+  cut_ok bytes (Nlen (concat p)) /\
+  range bytes (Nlen (concat p)) (Nlen (concat p) + Nlen l) = l).
+Check (C18_parallel_stream_eq_serial : forall (key : list N -> N) (bytes : list N) (lim : nat)
+    (sz : nat -> nat -> N) (fuel : nat),
+  bytes <> [] -> (forall l, In l (split_lines bytes) -> key l <> 0) -> grouped (lfile key bytes) ->
+  Nlen bytes * Nlen bytes < 2 ^ N.of_nat lim -> Nlen bytes < 2 ^ 63 ->
+  (forall i k, 1 <= sz i k) -> (length bytes < fuel)%nat ->
+  exists ix,
+    index_chroms (S lim) (lfile key bytes) = Ok (Some ix) /\
+    ix = run_starts (lfile key bytes) /\
+    par_streams fuel bytes sz ix = map Ok (groups key (split_lines bytes)) /\
+    map snd ix = map (ghd key) (groups key (split_lines bytes)) /\
+    runs_ok key (groups key (split_lines bytes)) /\
+    concat (groups key (split_lines bytes)) = split_lines bytes).
+Check (C18_parallel_stream_eq_serial_100 : forall (key : list N -> N) (bytes : list N)
+    (sz : nat -> nat -> N) (fuel : nat),
+  bytes <> [] -> (forall l, In l (split_lines bytes) -> key l <> 0) -> grouped (lfile key bytes) ->
+  Nlen bytes < 2 ^ 49 ->
+  (forall i k, 1 <= sz i k) -> (length bytes < fuel)%nat ->
+  exists ix,
+    index_chroms depth_limit (lfile key bytes) = Ok (Some ix) /\
+    ix = run_starts (lfile key bytes) /\
+    par_streams fuel bytes sz ix = map Ok (groups key (split_lines bytes)) /\
+    map snd ix = map (ghd key) (groups key (split_lines bytes)) /\
+    runs_ok key (groups key (split_lines bytes)) /\
+    concat (groups key (split_lines bytes)) = split_lines bytes).
+Check (C18_index_streams : forall (key : list N -> N) (bytes : list N) (limit : nat) (ix : list entry)
+    (sz : nat -> nat -> N) (fuel : nat),
+  index_chroms limit (lfile key bytes) = Ok (Some ix) ->
+  Nlen bytes < 2 ^ 63 -> (forall i k, 1 <= sz i k) -> (length bytes < fuel)%nat ->
+  exists segs,
+    par_streams fuel bytes sz ix = map Ok segs /\
+    concat segs = split_lines bytes /\
+    Forall (fun s => s <> []) segs /\
+    ix = seg_starts key 0 segs /\
+    view_streams (lfile key bytes) ix = map (map (abs_line key)) segs).
+Check (C18_chunk_stream_eq_serial : forall (file : list N) (n : N) (cs : list (N * N))
+    (sz : nat -> nat -> N) (fuel : nat),
+  split_file_into_chunks_by_size file n = Ok cs ->
+  Nlen file < 2 ^ 63 -> (forall i k, 1 <= sz i k) -> (length file < fuel)%nat ->
+  exists streams,
+    chunk_streams fuel file sz cs = map Ok streams /\
+    streams = map (fun ab => split_lines (range file (fst ab) (snd ab))) cs /\
+    concat streams = split_lines file /\
+    concat (map (map trim_end) streams) = line_stream file).
+Check (C18_chunks_cut_at_lines : forall (file : list N) (n : N) (cs : list (N * N)),
+  split_file_into_chunks_by_size file n = Ok cs ->
+  let pieces := map (fun ab => range file (fst ab) (snd ab)) cs in
+  concat pieces = file /\
+  Forall (fun c => c = [] \/ exists c', c = c' ++ [NL]) (removelast pieces)).
+(* the reference notions the new statements rest on *)
+Check (eq_refl : @lfile = fun key bytes => map (abs_line key) (split_lines bytes)).
+Check (eq_refl : @abs_line = fun key l => (key l, Nlen l)).
+Check (eq_refl : par_streams = par_streams_from O).
+Check (eq_refl : chunk_streams = chunk_streams_from O).
+Check (eq_refl : u64_max = 2 ^ 64 - 1).
+Check (eq_refl : lines_fuel = fun file : list N => S (length file)).
 End PinC18.
+
+Module PinC18b.
+Import Model.FileView Model.Chunker Model.Indexer Properties.C18.
+Import Model.BBIFile Model.BigWigWrite Model.Accept Proofs.SliceStreamsAccept.
+Local Open Scope N_scope.
+Check (C18_parallel_source_eq_serial : forall (cid : name -> N) fok o sizes (text : list N) (lim : nat)
+    (sz : nat -> nat -> N) (fuel : nat),
+  let key := bed_key cid in
+  text <> [] ->
+  (forall l, In l (split_lines text) -> key l <> 0) ->
+  (forall l1 l2, In l1 (split_lines text) -> In l2 (split_lines text) ->
+     cid (chrom_of l1) = cid (chrom_of l2) -> chrom_of l1 = chrom_of l2) ->
+  grouped (lfile key text) ->
+  Nlen text * Nlen text < 2 ^ N.of_nat lim -> Nlen text < 2 ^ 63 ->
+  (forall i k, 1 <= sz i k) -> (length text < fuel)%nat ->
+  exists ix streams,
+    index_chroms (S lim) (lfile key text) = Ok (Some ix) /\
+    par_streams fuel text sz ix = map Ok streams /\
+    concat streams = split_lines text /\
+    tasks (bw_parse fok) streams = line_runs (bw_lines fok text) /\
+    tasks bb_parse streams = line_runs (bb_lines text) /\
+    parallel check_val (o_sort_all o) sizes (tasks (bw_parse fok) streams) = bw_text_parallel fok o sizes text /\
+    parallel bb_check_val (o_sort_all o) sizes (tasks bb_parse streams) = bb_text_parallel o sizes text /\
+    (bw_text_serial fok o sizes text = Ok tt <->
+     parallel check_val (o_sort_all o) sizes (tasks (bw_parse fok) streams) = Ok tt) /\
+    (bb_text_serial o sizes text = Ok tt <->
+     parallel bb_check_val (o_sort_all o) sizes (tasks bb_parse streams) = Ok tt)).
+Check (eq_refl : bed_key = fun (cid : name -> N) (l : list N) =>
+  match snd (parse_bed_line l) with POk _ => cid (chrom_of l) | PErr _ => 0 end).
+Check (eq_refl : chrom_of = fun l : list N => fst (parse_bed_line l)).
+Check (eq_refl : @task_of = fun V (parse : list N -> pline V) (g : list (list N)) =>
+  (chrom_of (hd [] g), map parse g)).
+End PinC18b.
